@@ -515,7 +515,10 @@ def run(res):
       "type) pair used are measured on the real code in the same downstream module and acc t t = true is monitored; "
       "overloaded functions' return types have pairwise different base classes (Optimize inside _combine_multiple_returns "
       "is not modelled); one user base class per class, base arguments a type parameter or a ground type; type parameters "
-      "below type[..] / Callable[..] are outside the model (two fixed probes keep the findings reproduced)",
+      "below type[..] / Callable[..] are outside the model (two fixed probes keep the findings reproduced); "
+      "attribute._filter_var has two model variants (Decl.attr_read fixed=false: type parameter resolved by short name, "
+      "fixed=true: by full name, fixes/C06-filter-var-full-name): the collision witness of Props/C06.v is run on the tree, "
+      "the variant it shows is the one all cases are held to (both are evaluated; neither matching fails the check)",
   ]
   common.coq_obligations(res, "C06")
   common.bootstrap_pytype()
@@ -528,7 +531,7 @@ def run(res):
   n_wild, n_dialect = (2500, 2500) if thorough else (300, 300)
   correspondence(res, r, n_wild, n_dialect, corpus_types)
   import c06_decl
-  n_batches = 40 if thorough else 4
+  n_batches = 40 if thorough else 3
   c06_decl.leg(res, common.rng(res.seed, "c06-decl"), n_batches, 3, report)
   n_prog, budget = (4000, 720) if thorough else (400, 50)
   e2e(res, common.rng(res.seed, "c06-e2e"), n_prog, 4, budget, corpus_programs)
@@ -552,10 +555,8 @@ def replay(res, path):
   os.makedirs(WORK, exist_ok=True)
   if rep.get("kind") == "decl":
     import c06_decl
-    pyi, errs = c06_decl.replay(rep, os.path.join(WORK, "replay"))
-    # still failing = the fingerprinted name is an error line or does not carry the expected type (printed above for
-    # inspection; the verdict of a full run is taken by the oracle in c06_decl.leg)
-    return 1 if rep.get("names") else 0
+    _, _, bad = c06_decl.replay(rep, os.path.join(WORK, "replay"))
+    return 1 if bad else 0
   if rep.get("kind") == "types":
     loaded, pre, post, errs = L.round_trip(rep["stub"], os.path.join(WORK, "replay"))
     bad = False
